@@ -23,9 +23,9 @@ VARIABLES i, lost, mon
 tvars == <<vars, i, lost, mon>>
 
 Pad(q, dflt) == [t \in Threads |-> IF t <= Len(q) THEN q[t] ELSE dflt]
-InitScenario(roles, ops, clr) ==
-    LET r == Pad(roles, "none")  o == Pad(ops, "none") IN
-    /\ role' = r /\ prog' = [t \in Threads |-> <<o[t]>> \o CleanUp]
+InitScenario(roles, progs, clr) ==
+    LET r == Pad(roles, "none")  o == Pad(progs, <<"none">>) IN
+    /\ role' = r /\ prog' = [t \in Threads |-> o[t] \o CleanUp]
     /\ s1' = [t \in Threads |-> F1(r[t])] /\ s2' = [t \in Threads |-> FALSE] /\ w' = [t \in Threads |-> FW(r[t])]
     /\ hard' = Card({t \in Threads : F1(r[t])})
     /\ soft' = Card({t \in Threads : F1(r[t])}) + Card({t \in Threads : FW(r[t])})
@@ -33,8 +33,8 @@ InitScenario(roles, ops, clr) ==
     /\ mem' = IF \E t \in Threads : F1(r[t]) THEN "live" ELSE "freed"
     /\ clrs' = IF (\E t \in Threads : F1(r[t])) \/ ~clr THEN 0 ELSE 1
     /\ bad' = FALSE
-    /\ ip' = [t \in Threads |-> ResolveIp(END, <<o[t]>> \o CleanUp, 0, F1(r[t]), FALSE, FW(r[t]))]
-    /\ pc' = [t \in Threads |-> Resolve(END, <<o[t]>> \o CleanUp, 0, F1(r[t]), FALSE, FW(r[t]))]
+    /\ ip' = [t \in Threads |-> ResolveIp(END, o[t] \o CleanUp, 0, F1(r[t]), FALSE, FW(r[t]))]
+    /\ pc' = [t \in Threads |-> Resolve(END, o[t] \o CleanUp, 0, F1(r[t]), FALSE, FW(r[t]))]
     /\ old' = [t \in Threads |-> 0] /\ got' = [t \in Threads |-> "none"]
 
 (* ---- the protocol-agnostic monitor ---- *)
@@ -91,7 +91,7 @@ TNext ==
     /\ i < Len(Recs) /\ i' = i + 1
     /\ LET rec == Recs[i + 1] IN
        CASE rec.e = "reset" ->
-              /\ InitScenario(rec.roles, rec.ops, rec.clr) /\ lost' = FALSE /\ mon' = MonInit(rec)
+              /\ InitScenario(rec.roles, rec.progs, rec.clr) /\ lost' = FALSE /\ mon' = MonInit(rec)
          [] rec.e = "ev" ->
               /\ LET m2 == IF Level = 2 /\ ~mon.viol THEN MonEv(mon, rec) ELSE mon IN
                  mon' = m2 /\ (IF Level # 2 \/ mon.viol \/ ~m2.viol THEN TRUE ELSE Report("L2FAIL", rec))
